@@ -189,7 +189,7 @@ pub fn run(ctx: &Ctx, model: &mut Model, rep: &mut Report) {
             rep.fail(json!({"kind": "links", "library": lib, "ext": f.witness["ext"], "what": format!("repaired finding {} is back: {}", f.id, what)}));
         }
     }
-    let n = if ctx.thorough { 5000 } else { 400 };
+    let n = if ctx.thorough { 5000 } else { 1200 };
     for i in 0..n {
         let mut r = Rng::for_case(ctx.seed ^ 0xC06, i as u64);
         let wild = i % 8 == 7;
